@@ -22,7 +22,7 @@ RULE = ('sequential: every program = sequence of nested levels (entry form x exi
         'non-trivial = program has >=2 levels or an invalid/raising level, or schedule has >=1 preemption.')
 ASSUMPTIONS = ['scope names from a fixed menu', 'scheduling points = line events in /repo/gin/*.py (sys.settrace)',
                'threads are real threading.Thread objects run one at a time under a baton scheduler']
-WITNESSES = ['nested_append', 'list_replaces', 'none_clears', 'exception_exit_restores', 'invalid_restores',
+WITNESSES = ['scoped_selector_equal_to_enclosing_scope', 'nested_append', 'list_replaces', 'none_clears', 'exception_exit_restores', 'invalid_restores',
              'scoped_selector_scope', 'scoped_ref_scope', 'outer_scope_object_reentered', 'thread_private',
              'baseexception_exit_restores', 'scope_objects_created_before_entry']
 
@@ -44,20 +44,29 @@ class TruthRaises:
 OBS = []
 
 
+def _observe_and_scribble():
+  """Returns the active scope; then edits the list current_scope() handed out (it is the caller's own copy)."""
+  sc = gin.current_scope()
+  seen = list(sc)
+  sc.append('scribbled')
+  sc[:0] = ['x']
+  return seen
+
+
 def setup():
   @gin.configurable(module='c09')
   def probe(x=None):
-    OBS.append(('probe', gin.current_scope(), x))
+    OBS.append(('probe', _observe_and_scribble(), x))
     return x
 
   @gin.configurable(module='c09')
   def boom():
-    OBS.append(('boom', gin.current_scope()))
+    OBS.append(('boom', _observe_and_scribble()))
     raise Boom()
 
   @gin.configurable(module='c09')
   def kbd():
-    OBS.append(('kbd', gin.current_scope()))
+    OBS.append(('kbd', _observe_and_scribble()))
     raise KeyboardInterrupt()      # not an Exception subclass
 
   @gin.configurable(module='c09')
@@ -69,7 +78,7 @@ def setup():
     return v
   @gin.config_scope('dz')            # a scope used as a decorator, created once, here, at root scope
   def decorated():
-    OBS.append(('decorated', gin.current_scope()))
+    OBS.append(('decorated', _observe_and_scribble()))
   global DECORATED
   DECORATED = decorated
   global PROBE, BOOM, CONSUMER, CONSUMER2
@@ -88,7 +97,7 @@ ENTRY = {
 VALID = [k for k in ENTRY if not k.startswith('!')]
 INVALID = [k for k in ENTRY if k.startswith('!')]
 LEAVES = ['none', 'probe', 'getconf_scoped', 'ref_scoped', 'boom_scoped', 'getconf_unscoped', 'kbd_scoped', 'kbd_ref_scoped',
-          'decorated_fn']
+          'decorated_fn', 'getconf_scope_of_enclosing']
 
 
 def bound(tier):
@@ -139,6 +148,14 @@ def do_leaf(leaf, stack, res, prog):
       CONSUMER()
     exp = [('probe', ['p'], None)]
     res.w('scoped_ref_scope')
+  elif leaf == 'getconf_scope_of_enclosing':
+    # a scoped selector that spells exactly a scope sitting BELOW the top of the stack (or the top itself)
+    below = [st for st in stack[:-1] if st and all(isinstance(c, str) and c.isidentifier() for c in st)]
+    tgt = below[-1] if below else (top if top and all(isinstance(c, str) and c.isidentifier() for c in top) else ['p'])
+    gin.get_configurable('/'.join(tgt) + '/c09.probe')()
+    exp = [('probe', list(tgt), None)]
+    if below:
+      res.w('scoped_selector_equal_to_enclosing_scope')
   elif leaf == 'decorated_fn':
     DECORATED()
     exp = [('decorated', top + ['dz'])]
